@@ -80,6 +80,7 @@ class LoopSpec(object):
 
 _CONCRETE_REF_BASE = 1000000000
 AUTO_FRAMES = {}      # (qualname, loop ordinal) -> (tables, fields) learnt
+_LOOP_ORDINALS = {}   # id(function node) -> {id(loop node): ordinal}
 
 
 class Interp(object):
@@ -1503,6 +1504,7 @@ class Interp(object):
                     self.raise_(TypeError, 'missing keyword-only %s' % p)
         frame = Frame(locals_, clo.env, clo.globals, clo.qualname, clo.module)
         frame.self_cls = owner
+        frame.fnode = node
         self.callstack.append(frame)
         self.call_depth += 1
         if self.call_depth > 60:
@@ -1905,10 +1907,36 @@ class Interp(object):
             cm.cm_exit(self, frame, None)
 
     # ------------------------------------------------------------------ loops
+    def loop_ordinal(self, node, frame):
+        """Syntactic ordinal of a loop inside its function (pre-order over
+        for / while statements, nested function definitions excluded)."""
+        fnode = getattr(frame, 'fnode', None)
+        if fnode is None:
+            frame.loop_ordinal += 1
+            return frame.loop_ordinal
+        cache = _LOOP_ORDINALS.get(id(fnode))
+        if cache is None:
+            cache = {}
+            n = [0]
+
+            def walk(x):
+                for c in ast.iter_child_nodes(x):
+                    if isinstance(c, (ast.FunctionDef, ast.AsyncFunctionDef,
+                                      ast.Lambda, ast.ClassDef)):
+                        continue
+                    if isinstance(c, (ast.For, ast.While)):
+                        n[0] += 1
+                        cache[id(c)] = n[0]
+                    walk(c)
+            walk(fnode)
+            _LOOP_ORDINALS[id(fnode)] = cache
+        return cache.get(id(node), 0)
+
     def exec_While(self, node, frame):
-        frame.loop_ordinal += 1
+        ordinal = self.loop_ordinal(node, frame)
+        frame.loop_ordinal = ordinal
         spec = self.registry.get('loops', {}).get(
-            (frame.qualname, frame.loop_ordinal))
+            (frame.qualname, ordinal))
         handler = self.registry.get('while_handler')
         if handler is not None:
             r = handler(self, node, frame, spec)
@@ -1918,8 +1946,7 @@ class Interp(object):
         self.undecided('while loop without a model', node)
 
     def exec_For(self, node, frame):
-        frame.loop_ordinal += 1
-        ordinal = frame.loop_ordinal
+        ordinal = self.loop_ordinal(node, frame)
         it = self.eval(node.iter, frame)
         if isinstance(it, Native) and hasattr(it, 'iter_value'):
             it = it.iter_value(self)
